@@ -117,6 +117,12 @@ def table_rules(ctx, facts, rep):
     return ok
 
 
+def _strip_refs(e):
+    while e[0] in ("ref", "deref") and len(e) > 1 and isinstance(e[1], tuple):
+        e = e[1]
+    return e
+
+
 def align_rules(facts, rep):
     rule = "C17-ALIGN"
     ok = True
@@ -164,7 +170,7 @@ def align_rules(facts, rep):
     # by the validation that follows -- every request that needs padding would fail)
     wa = [norm(ex.operand(t_["args"][1], (b_, None))) for b_, t_ in calls_matching(f, r"io::Write::write_all$")]
     good = any(any(y[0] == "call" and y[1].endswith("from_elem") for y in walk(a_)) for a_ in wa) and \
-        any("[u8; 2]" in show(a_) for a_ in wa)         # (the two-byte id; its value 0x617a is compared by the codec table of the pad record)
+        any("[u8; 2]" in show(a_) or _strip_refs(a_)[0] in ("const", "named") for a_ in wa)         # (the two-byte id, literal or named constant)
     ok &= rep.check(good, rule, "pad-record-complete", where(f, f.span), "write_all(b\"za\"), the length, write_all(&pad)", "the padding record is not written completely (id, length, pad bytes): writes are %s" % [show(a_)[:40] for a_ in wa])
     # the pad length itself: the record costs 4 bytes of header, so the pad must satisfy (data_start + 4 + pad) % align == 0 with
     # 0 <= pad < align.  The expression that sizes the pad vector is reconstructed from the MIR (over `align` and the preliminary data
